@@ -61,6 +61,16 @@ type Rig struct {
 	mu       sync.Mutex
 	log      []util.VerifEvent
 	onEvent  func(n int64, ev *util.VerifEvent)
+
+	lastPwmWrite util.VerifEvent
+	havePwmWrite bool
+}
+
+// lastPwmWriteRefused: was fan2go's last PWM write a 255 that the driver refused or ignored?
+func (r *Rig) lastPwmWriteRefused() bool {
+	r.mu.Lock()
+	defer r.mu.Unlock()
+	return r.havePwmWrite && r.lastPwmWrite.Val == 255 && (r.lastPwmWrite.Err != "" || r.lastPwmWrite.Action == "ignore")
 }
 
 func (r *Rig) state(name string) string { return filepath.Join(r.Dir, name) }
@@ -226,6 +236,10 @@ func newRig(ctx *Ctx, spec RigSpec) *Rig {
 		if len(r.log) < 20000 {
 			r.log = append(r.log, *ev)
 		}
+		if ev.Op == "w" && ev.Path == r.PwmPath {
+			// kept apart from the (capped) log: the final-state oracle needs the very last PWM write
+			r.lastPwmWrite, r.havePwmWrite = *ev, true
+		}
 		cb := r.onEvent
 		r.mu.Unlock()
 		if cb != nil {
@@ -347,6 +361,12 @@ type runResult struct {
 // start launches controller.Run and one sensor monitor; returns cancel and a channel with the result of Run.
 func (r *Rig) start() (context.CancelFunc, chan runResult, *sync.WaitGroup) {
 	cctx, cancel := context.WithCancel(context.Background())
+	done, wg := r.launch(cctx)
+	return cancel, done, wg
+}
+
+// launch starts the actors on a context the caller already owns (so that callbacks installed before the start can cancel it).
+func (r *Rig) launch(cctx context.Context) (chan runResult, *sync.WaitGroup) {
 	done := make(chan runResult, 1)
 	var wg sync.WaitGroup
 	wg.Add(1)
@@ -368,7 +388,7 @@ func (r *Rig) start() (context.CancelFunc, chan runResult, *sync.WaitGroup) {
 		}()
 		res.Err = r.Ctrl.Run(cctx)
 	}()
-	return cancel, done, &wg
+	return done, &wg
 }
 
 // restoredOK is the C03 final-state predicate.
